@@ -1,5 +1,7 @@
 import TFV.Properties.Net
+import TFV.Properties.Gray
 #print axioms TFV.Net.C13_getOrder_valid
 #print axioms TFV.Net.C13_decode_valid
 #print axioms TFV.Net.C13_softmax_together
 #print axioms TFV.Net.C13_mlp_layers
+#print axioms TFV.Gray.C13_weights_gray_in_box
